@@ -12,9 +12,10 @@ EXPLANATION = (
     "to the verify cap's and parses only that checked UEB; (2) _parse_and_validate takes the tree roots and segment "
     "size from that UEB, derives share/block/segment counts from cap and UEB with the expected formulas, and returns "
     "only after every redundant UEB field that is present was compared with the cap; (3) ValidatedReadBucketProxy "
-    "returns a block only after block_hash(that block) was accepted by the block hash tree at blocknum, seeds the "
-    "block tree root only from the share hash tree leaf of its share number, never returns from a hash-failure "
-    "handler, and the get_all_* fetchers validate what they fetch; roots are seeded only from the validated UEB; "
+    "returns a block only after block_hash(that block) was accepted by the block hash tree at blocknum, every literal "
+    "root it gives the block tree is the share hash tree leaf of its share number (that NO other hashes enter a rootless "
+    "block tree is clause 10), it never returns from a hash-failure "
+    "handler, and the get_all_* fetchers feed what they fetch to the tree; roots are seeded only from the validated UEB; "
     "(4) _download_and_verify reports (True, sharenum) only after UEB, all hash fetches and every block 0..num_segments-1 "
     "validated with no failure-swallowing link in between, and classifies hash/layout failures as corrupt and an "
     "unknown version as incompatible (checked before LayoutInvalid); (5) shares enter the verified set only under a "
@@ -25,7 +26,17 @@ EXPLANATION = (
     "given the ciphertext node (verify cap only; the read key never reaches it), re-encodes with k and N of the verify "
     "cap and the file's real segment size under the file's storage index and size, reads ciphertext at consecutive "
     "offsets, and uploads through CHKUploader; (8) repair is started only when the check was not healthy and the verify "
-    "flag reaches the Checker. "
+    "flag reaches the Checker; (9) the segment size the Repairer receives is, through CiphertextFileNode.get_segment_size "
+    "and DownloadNode.get_segsize, on every path either self.segment_size tested to be known or the result of the observer "
+    "list that is fired only with it, self.segment_size is stored only from the 'segment_size' field of the hash-checked "
+    "UEB (the gate itself is C02), never from a guess, and size / storage index / cap handed to the Repairer are the "
+    "verify cap's; (10) every set_hashes on the verifier's block hash tree other than the seeding "
+    "{0: share_hash_tree.get_leaf(self.sharenum)} is dominated in its function by that seeding or by a test that the root "
+    "is already present (by induction the first root is then always the leaf of the claimed share number), or every "
+    "block delivery re-compares the root with that leaf, or the verifier's chain runs an always-seeding method first; "
+    "sharenum and both trees are fixed at construction.  Clause 10 is VIOLATED on the current tree by "
+    "get_all_blockhashes._got_block_hashes (genuine: a share stored under another share number, or a share with forged "
+    "blocks and a self-consistent block hash tree, verifies as good). "
     "Undecided: contents of repaired shares, hash/codec algebra, server behaviour between check and repair, "
     "that CHKUploader leaves existing shares alone (C22).")
 TECHNIQUE = "static analysis: CFG gate/dominance rules, Deferred-chain order, who-may-call sweeps, tuple/keyword agreement tables"
@@ -284,7 +295,7 @@ def run(ctx: Context):
 
     # -- 3. block / hash validation in ValidatedReadBucketProxy --------------
     with ctx.rule("C45.3", "R1/R4", "ValidatedReadBucketProxy: a block is returned only after block_hash(block) entered the "
-                  "block hash tree at blocknum; block-tree root = share hash tree leaf of this share; hash-failure "
+                  "block hash tree at blocknum; literal block-tree roots = share hash tree leaf of this share; hash-failure "
                   "handlers raise; get_all_* validate what they fetch; roots seeded only from the validated UEB",
                   expected=5) as r:
         fn = idx.func(VRBP + "._got_data")
